@@ -266,6 +266,10 @@ func nativeOfAtom(a Atom) interface{} {
 	panic("bad atom")
 }
 
+// nativeNilEmpty makes toNative render empty collections as nil slices/maps
+// (what a struct field holds when the column was never set).
+var nativeNilEmpty bool
+
 // toNative converts a model value to the Go value libovsdb uses natively
 // for a column of type ct (T, *T, []T, map[K]V). nil *Value -> nil interface.
 func toNative(ct ColType, v *Value) interface{} {
@@ -284,6 +288,9 @@ func toNative(ct ColType, v *Value) interface{} {
 		p.Elem().Set(reflect.ValueOf(nativeOfAtom(*v.O)))
 		return p.Interface()
 	case 'S':
+		if len(v.S) == 0 && nativeNilEmpty {
+			return reflect.Zero(reflect.SliceOf(kt)).Interface()
+		}
 		s := reflect.MakeSlice(reflect.SliceOf(kt), 0, len(v.S))
 		for _, a := range v.S {
 			s = reflect.Append(s, reflect.ValueOf(nativeOfAtom(a)))
@@ -291,6 +298,9 @@ func toNative(ct ColType, v *Value) interface{} {
 		return s.Interface()
 	case 'M':
 		vt := ovsdb.NativeTypeFromAtomic(ct.Val)
+		if len(v.M) == 0 && nativeNilEmpty {
+			return reflect.Zero(reflect.MapOf(kt, vt)).Interface()
+		}
 		m := reflect.MakeMap(reflect.MapOf(kt, vt))
 		for i := len(v.M) - 1; i >= 0; i-- { // first binding wins
 			m.SetMapIndex(reflect.ValueOf(nativeOfAtom(v.M[i][0])), reflect.ValueOf(nativeOfAtom(v.M[i][1])))
